@@ -695,6 +695,20 @@ def oracle0(c, o):
                 if not any(tail.startswith("<%s>" % v) or tail.startswith("[<%s>]" % v) for v in vns):
                     return False
         return True
+    def listed_under_own_names(o_):
+        # 'under its preferred and alternative name': some entry of an option list starts with this option's preferred name and,
+        # where it has a short name, shows the alternative in parentheses right behind it (labels are never wrapped)
+        if o_["short"]:
+            # (an option with a short name prefers it unless PREFER_LONG_NAME is given: AbstractOption's default flags)
+            a, b = ("--" + o_["long"], "-" + o_["short"]) if o_["flags"] & P_LONG else ("-" + o_["short"], "--" + o_["long"])
+            label = "%s (%s)" % (a, b)
+        else:
+            label = "--" + o_["long"]
+        for l in rest:
+            x = l.strip(" ")
+            if x.startswith(label) and (len(x) == len(label) or x[len(label)] == " "):
+                return True
+        return False
     if c["k"] == 1:
         for x in t["cmds"]:
             shown = any(re.match(r"^  %s( |$)" % re.escape(x["name"]), l) for l in lines)
@@ -706,6 +720,8 @@ def oracle0(c, o):
                 return "global-option-missing"
             if o_["short"] and not any(re.search(short_re(o_["short"]), l) for l in rest):
                 return "option-short-name-missing"
+            if not narrow and not listed_under_own_names(o_):
+                return "option-not-listed-under-its-own-names"
         if not narrow:
             for ph in ("<command>", "<arg1>", "<argN>"):
                 if ph not in usage:
@@ -724,6 +740,8 @@ def oracle0(c, o):
                 return "option-missing"
             if o_["short"] and not any(re.search(short_re(o_["short"]), l) for l in rest):
                 return "option-short-name-missing"
+            if not narrow and not listed_under_own_names(o_):
+                return "option-not-listed-under-its-own-names"
         for a in lvl["args"]:
             if not any(re.match(r"^ +<%s>( |$)" % re.escape(a["name"]), l) for l in lines):
                 return "argument-missing"
@@ -747,6 +765,8 @@ def oracle0(c, o):
             for o_ in s["opts"]:
                 if not any(("--" + o_["long"]) in l for l in rest):
                     return "sub-command-option-missing"
+                if not narrow and not listed_under_own_names(o_):
+                    return "sub-command-option-not-listed-under-its-own-names"
     return None
 
 
